@@ -338,11 +338,9 @@ class BaseSection(base.Sectionable):
             self._parent.remove(self)
             self._parent = None
         elif self._validate_parent(new_parent):
-            new_parent._validate_child(self)
-            if self._parent is not None:
+            if self._parent is new_parent:
                 self._parent.remove(self)
-            self._parent = new_parent
-            self._parent.append(self)
+            new_parent.append(self)
         else:
             raise ValueError(
                 "odml.Section.parent: passed value is not of consistent type!"
@@ -519,9 +517,13 @@ class BaseSection(base.Sectionable):
         """
         if isinstance(obj, BaseSection):
             self._validate_child(obj)
+            if obj._parent is not None and obj.name not in self._sections:
+                obj._parent.remove(obj)
             self._sections.append(obj)
             obj._parent = self
         elif isinstance(obj, BaseProperty):
+            if obj._parent is not None and obj.name not in self._props:
+                obj._parent.remove(obj)
             self._props.append(obj)
             obj._parent = self
         elif isinstance(obj, Iterable) and not isinstance(obj, str):
@@ -576,6 +578,8 @@ class BaseSection(base.Sectionable):
                                  "Section with name '%s' already exists." % obj.name)
 
             self._validate_child(obj)
+            if obj._parent is not None:
+                obj._parent.remove(obj)
             self._sections.insert(position, obj)
             obj._parent = self
         elif isinstance(obj, BaseProperty):
@@ -583,6 +587,8 @@ class BaseSection(base.Sectionable):
                 raise ValueError("odml.Section.insert: "
                                  "Property with name '%s' already exists." % obj.name)
 
+            if obj._parent is not None:
+                obj._parent.remove(obj)
             self._props.insert(position, obj)
             obj._parent = self
         else:
